@@ -16,7 +16,8 @@ previous / at the next position; plus the RTFDocument-level rules (df together w
 figure, neither, group_by/page_by/subline_by column missing from the data at every list position
 and in every section, new_page without page_by, df/rtf_body/rtf_column_header list length
 mismatches, missing figure file at every list position), each crossed with the other optional fields of the same
-constructor set / unset (the rule must hold whatever else is configured).
+constructor set / unset (the rule must hold whatever else is configured).  A slice of all this is evaluated again in a
+child interpreter started with `python -O` (asserts stripped) and must give the same verdicts.
 Oracle: the constructor raises ValueError (pydantic's ValidationError is one) - or FileNotFoundError
 for a missing figure file.  Any other exception type, or a returned object, is a violation.
 Positive control: the same value with the *valid* filler at the same position must construct; an
@@ -306,7 +307,7 @@ def fig_dir() -> str:
     if _FIG_DIR is None:
         from ..core import repo
         from ..spec.figures import make_png
-        d = os.path.join(repo.VERIF, ".work", f"c19-{os.getpid()}")
+        d = os.path.join(repo.VERIF, ".work", f"c19-{os.getppid()}-{os.getpid()}")
         os.makedirs(d, exist_ok=True)
         for i in range(3):
             p = os.path.join(d, f"ok{i}.png")
@@ -514,7 +515,79 @@ def eval_doc(case: dict) -> dict:
     return out
 
 
+# --------------------------------------------------------------------------- the interpreter's optimisation level
+# `python -O` / PYTHONOPTIMIZE strips assert statements: a validator written as an assert rejects nothing there.  The
+# optimisation level is part of the environment, so a slice of the invalid cases (every invalid value of every validated
+# field in scalar form, one inner matrix position per matrix-capable field, the document-level rules in their plain context)
+# is re-evaluated in ONE child interpreter started with -O, which imports rtflite from the same ${VERIF_REPO:-/repo}/src.
+# Demanded: the same verdict as in this interpreter.
+
+_CHILD = """
+import json, sys
+sys.path.insert(0, {verif!r})
+from mc.core import repo
+repo.bind()
+from mc.props import c19
+cases = json.load(sys.stdin)
+out = [c19.eval_case(c) for c in cases]
+sys.stdout.write("\\n@@C19-CHILD@@" + json.dumps({{"optimize": sys.flags.optimize, "results": out}}, default=str))
+"""
+
+
+def eval_optimised(case: dict) -> dict:
+    import json
+    import subprocess
+    import sys
+    from ..core import repo
+    sub = case["cases"]
+    p = subprocess.run([sys.executable, "-O", "-c", _CHILD.format(verif=repo.VERIF)], input=json.dumps(sub), capture_output=True,
+                       text=True, cwd=repo.VERIF, env=dict(os.environ, VERIF_REPO=repo.REPO), timeout=900)
+    if p.returncode != 0 or "@@C19-CHILD@@" not in p.stdout:
+        raise RuntimeError(f"python -O child failed (rc={p.returncode}): {p.stderr[-800:]}")
+    child = json.loads(p.stdout.split("@@C19-CHILD@@", 1)[1])
+    if child["optimize"] < 1 or len(child["results"]) != len(sub):
+        raise RuntimeError(f"python -O child: optimize={child['optimize']}, {len(child['results'])} results for {len(sub)} cases")
+    viol, cnt = [], {"O-cases": len(sub), "O-same-verdict": 0, "O-rejected": 0}
+    for c, rc in zip(sub, child["results"]):
+        rn = eval_case(c)
+        sn = sorted(v["sig"] for v in rn.get("viol") or [])
+        sc = sorted(v["sig"] for v in rc.get("viol") or [])
+        cnt["O-rejected"] += sum(v for k, v in (rc.get("cnt") or {}).items() if k.startswith("rejected-"))
+        if bool(rc.get("nt")) != bool(rn.get("nt")) and not sc and not sn:
+            sc = ["twin-control-verdict-differs"]
+        if sn == sc:
+            cnt["O-same-verdict"] += 1      # violations common to both are reported by the ordinary layers
+            continue
+        extra = [v for v in (rc.get("viol") or []) if v["sig"] not in sn]
+        d = extra[0]["detail"] if extra else f"normal interpreter: {sn}; under -O: {sc}"
+        viol.append({"klass": None, "sig": "under-python-O:" + (extra[0]["sig"] if extra else "verdict-differs"),
+                     "detail": f"[child interpreter started with python -O] {d} - the normal interpreter gives {sn or 'a clean rejection'}"})
+    return {"viol": viol, "nt": True, "cnt": cnt}
+
+
+def optimised_slice(groups, dbad) -> list:
+    """-> three batches of sub-cases (page/text/figure components, table components, document rules)."""
+    light, table = [], []
+    for comp, fields in groups:
+        dest = table if comp in TABLE_COMPONENTS else light
+        for field, kind in fields.items():
+            base = {"comp": comp, "field": field, "kind": kind}
+            shapes = dict(shapes_of(comp, field, QUICK_SHAPES))
+            listed = [v for v, why in invalid_values(kind, False, 0) if why == "listed"]
+            derived = [v for v, why in invalid_values(kind, False, 0) if why != "listed"][:2]
+            for b in listed + derived:
+                dest.append({**base, "shape": "scalar", "rot": 0, "pos": 0, "bad": b})
+            if shapes.get("m2x2"):
+                dest.append({**base, "shape": "m2x2", "rot": 1, "pos": 3, "bad": listed[0]})
+            elif shapes.get("list3"):
+                dest.append({**base, "shape": "list3", "rot": 1, "pos": 2, "bad": listed[0]})
+    docs = [c for c in dbad if not c.get("ctx") and c.get("sections", 1) == 1 and not c.get("as_path")]
+    return [{"k": "optimised", "part": n, "cases": cs} for n, cs in (("page-text-figure", light), ("table-components", table), ("document-rules", docs))]
+
+
 def eval_case(case: dict) -> dict:
+    if case.get("k") == "optimised":
+        return eval_optimised(case)
     if case.get("k") == "doc":
         return eval_doc(case)
     return eval_field(case)
@@ -634,6 +707,9 @@ def plan(run):
         "a single RTFBody given with a list of DataFrames, or a list of bodies with a single DataFrame, is not a 'mismatched list "
         "length' in the sense of the property (an implementation may broadcast) and is not demanded",
         "for a missing figure file both FileNotFoundError and ValueError are accepted",
+        "the interpreter's optimisation level is part of the environment: a slice of the invalid cases (every listed invalid value of "
+        "every validated field in scalar form, one inner list/matrix position per field, the document-level rules in their plain "
+        "context) is re-evaluated in a child interpreter started with `python -O` and must get the same verdict",
         "legal sets restated in this module: text_justification l c r j d (and ''), cell_justification l c r (and '') - 'j' and 'd' are "
         "text-only; vertical alignment top center bottom merge_first merge_rest; the 15 border style names; format = any string over "
         "b i u s ^ _; colours = the frozen table data/colors.json. rtflite documents no normalisation (case folding, stripping) of these "
@@ -660,15 +736,17 @@ def plan(run):
         run.layer("positive-controls", "mc.props.c19:eval_case", ctl_all + dctl, chunk=150, total=len(ctl_all) + len(dctl), max_samples=0)
         run.layer("invalid-field-values", "mc.props.c19:eval_case", bad_all, chunk=150, total=len(bad_all), max_samples=3)
         run.layer("document-rules", "mc.props.c19:eval_case", dbad, chunk=40, total=len(dbad), max_samples=3)
+        ocases = optimised_slice(groups, dbad)
+        run.layer("under-python-O", "mc.props.c19:eval_case", ocases, chunk=1, total=len(ocases), max_samples=0)
     finally:
         from ..core import repo
-        for d in glob.glob(os.path.join(repo.VERIF, ".work", "c19-*")):
+        for d in glob.glob(os.path.join(repo.VERIF, ".work", f"c19-{os.getpid()}-*")):
             shutil.rmtree(d, ignore_errors=True)
     # vacuity guards
     need = ["control-constructed", "rejected-ValueError", "rejected-FileNotFoundError", "invalid-inner-matrix-position",
             "invalid-scalar", "invalid-list3", "invalid-m2x2", "invalid-m1x3"]
     need += ["invalid-kind-" + k for k in KINDS] + ["invalid-with-" + x for x in SCHEMES]
-    need += ["invalid-doc-with-other-fields-set", "invalid-sibling-value", "invalid-near-miss-value"]
+    need += ["O-cases", "O-same-verdict", "O-rejected", "invalid-doc-with-other-fields-set", "invalid-sibling-value", "invalid-near-miss-value"]
     need += ["invalid-doc-" + r for r in ("figure-missing", "group-missing", "new-page", "df-and-figure", "neither", "section-length")]
     for n in need:
         if not run.cnt.get(n):
